@@ -614,11 +614,15 @@ class Registry:
                 if isinstance(tgt, SObj):
                     tgt.fields[e.left.attr] = val
                     skip.add(id(c))
-        for c in con.of("ensures"):
-            if c is bound_by or id(c) in skip:
-                continue
-            t = self.eval_bool(it, c.arg(0), fr)
-            p.assume(t)
+        p.ghost["assume_mode"] = p.ghost.get("assume_mode", 0) + 1
+        try:
+            for c in con.of("ensures"):
+                if c is bound_by or id(c) in skip:
+                    continue
+                t = self.eval_bool(it, c.arg(0), fr)
+                p.assume(t)
+        finally:
+            p.ghost["assume_mode"] -= 1
         if not p.feasible():
             raise DeadPath()
         return result
